@@ -3,6 +3,7 @@ import Proofs.SortCode
 import Proofs.SortCanon
 import Proofs.SortArity
 import Proofs.SortFile
+import Proofs.SortPassBytes
 import Generated.C16
 /-!
 # C16 — External sort returns the sorted (and combined) multiset of its input
@@ -774,6 +775,92 @@ theorem byteEntry_unrounded_breaks :
     (⟨[1, 2, 3], [4, 5, 6]⟩ : ByteEntry).increment 2 3 = .ok (some ⟨[3], [4, 5, 6]⟩) ∧
     (⟨[3], [4, 5, 6]⟩ : ByteEntry).increment 2 3 = .error () :=
   ⟨rfl, rfl, rfl⟩
+
+/-! ## The byte level in every merge pass -/
+
+/-- **decodeRun_records**: a `MergeQueue::Entry` whose buffer (`per_buffer`) is any positive
+multiple of the entry size, reading the byte slice of a run chunk by chunk, delivers exactly the
+records of that slice (no step over `buffer_end_`, nothing lost at buffer boundaries). -/
+theorem decodeRun_records {E cap : Nat} (hE : 0 < E) (hc : 0 < cap) (hcap : E ∣ cap) (bytes : Buf)
+    (hb : E ∣ bytes.length) : decodeRun E cap bytes = some (recordsOf E bytes) :=
+  decodeRun_eq hE hc hcap bytes hb
+
+/-- every `per_buffer` the code computes qualifies -/
+theorem perBuffer_multiple {cfg : Cfg} {e b t : Nat} (hcfg : mkCfg e b t = .ok cfg) (M R : Nat) :
+    0 < perBuffer cfg.entrySize cfg.bufferSize M R ∧ cfg.entrySize ∣ perBuffer cfg.entrySize cfg.bufferSize M R :=
+  let L := mkCfg_legal hcfg
+  perBuffer_valid L.entryPos L.bufPos L.bufMult M R
+
+/-- **storeRunsBytes_refines**: one pass's output at byte level — merged records written through
+the pass chain's `Stream` blocks and `WriteAndRecycle`, logged in bytes, read back at
+`(TotalOffset(), NextSize())` and decoded through queue entries — is what the record-level model
+stores. -/
+theorem storeRunsBytes_refines {E cap B : Nat} (hE : 0 < E) (hc : 0 < cap) (hcap : E ∣ cap) (pad : Buf)
+    (runs : List (List (List Nat))) (hu : ∀ r ∈ runs, ∀ x ∈ r, x.length = E) :
+    storeRunsBytes E cap B pad (runs.map List.length) runs = some (runs.filter (fun r => !r.isEmpty)) := by
+  rw [storeRunsBytes_eq hE hc hcap pad runs hu]
+  exact storeRuns_eq runs
+
+example : storeRunsBytes 2 2 4 [9, 9, 9, 9] [2, 0, 1] [[[1, 2], [3, 4]], [], [[5, 6]]] =
+    some [[[1, 2], [3, 4]], [[5, 6]]] := by decide
+example : decodeRun 2 4 [1, 2, 3, 4, 5, 6] = some [[1, 2], [3, 4], [5, 6]] ∧ decodeRun 2 3 [1, 2, 3, 4, 5, 6] = none := by
+  decide
+
+/-- **codeMergeBytes_refines**: `Sort::Merge` with the byte-level file in *every* pass equals
+`Sort::Merge` of the record-level model, for runs of `entry_size`-byte records. -/
+theorem codeMergeBytes_refines {lt : List Nat → List Nat → Bool} (h : StrictWeak lt) (pick) {cfg : Cfg}
+    {e b t : Nat} (hcfg : mkCfg e b t = .ok cfg) (pad : Buf) (lazyMem : Nat) (runs : List (List (List Nat)))
+    (hu : ∀ r ∈ runs, ∀ x ∈ r, x.length = cfg.entrySize) :
+    codeMergeBytes lt neverCombine pick cfg pad lazyMem runs = codeMerge lt neverCombine pick cfg lazyMem runs :=
+  codeMergeBytes_eq h pick (mkCfg_legal hcfg) pad lazyMem runs hu
+
+/-- **codeSortBytes_passes_eq_spec** — the main theorem over the byte-level temp file for every
+pass.  Chain blocks are flat byte buffers (valid size a multiple of the entry size), sorted in place
+by `SizedSort`, spilled by `WriteAndRecycle` and logged in bytes; every merge pass reads its runs
+as byte slices at the logged offsets through queue entries, merges the decoded records, writes the
+merged runs through stream blocks into the next byte file and logs `written · entry_size`; the
+final lazy merge emits the output.  For every accepted configuration, every lazy memory, every
+tie-break policy and every stale block content `pad`, if the comparison is a total order on the
+occurring records, the output bytes are the bytes of the sorted records. -/
+theorem codeSortBytes_passes_eq_spec {lt : List Nat → List Nat → Bool} (h : StrictWeak lt) (pick) {cfg : Cfg}
+    {e b t : Nat} (hcfg : mkCfg e b t = .ok cfg) (pad : Buf) (lazyMem : Nat) (blocks : List Block)
+    (hw : ∀ blk ∈ blocks, blk.wf cfg.entrySize)
+    (htot : ∀ x y, x ∈ (blocks.map (Block.records cfg.entrySize)).flatten →
+      y ∈ (blocks.map (Block.records cfg.entrySize)).flatten → lt x y = false → lt y x = false → x = y)
+    (out : Buf) (p ret : Nat)
+    (ho : codeSortBytesPasses lt neverCombine pick cfg pad lazyMem blocks = .ok (out, p, ret)) :
+    out = bytesOf (sortSpec lt neverCombine (blocks.map (Block.records cfg.entrySize))) := by
+  have L := mkCfg_legal hcfg
+  rw [codeSortBytesPasses_eq h pick L pad lazyMem blocks hw] at ho
+  exact codeSortBytes_eq_spec L.entryPos h pick cfg lazyMem blocks hw htot out p ret ho
+
+/-- … and the byte-level pipeline always completes (no abort, no stall, no read past a buffer) -/
+theorem codeSortBytes_passes_ok {lt : List Nat → List Nat → Bool} (h : StrictWeak lt) (pick) {cfg : Cfg}
+    {e b t : Nat} (hcfg : mkCfg e b t = .ok cfg) (pad : Buf) (lazyMem : Nat) (blocks : List Block)
+    (hw : ∀ blk ∈ blocks, blk.wf cfg.entrySize) :
+    ∃ out p ret, codeSortBytesPasses lt neverCombine pick cfg pad lazyMem blocks = .ok (out, p, ret) := by
+  have L := mkCfg_legal hcfg
+  rw [codeSortBytesPasses_eq h pick L pad lazyMem blocks hw]
+  exact codeSortBytes_ok L.entryPos hcfg lt neverCombine pick lazyMem blocks hw
+
+/-! ## HolePunch -/
+
+/-- **holePunch_frame**: `HolePunch(fd, offset_, amount)` right after reading `amount` bytes at
+`offset_` keeps the file length and changes no byte outside the slice just read — in particular
+nothing another queue entry still has to read. -/
+theorem holePunch_frame (file : Buf) (off len : Nat) :
+    (holePunch file off len).length = file.length ∧
+    ∀ p, p < off ∨ off + len ≤ p → (holePunch file off len)[p]? = file[p]? :=
+  ⟨holePunch_length file off len, fun p hp => holePunch_outside file off len p hp⟩
+
+/-- seeded/C16-8 (punch from the page boundary below `offset_`) zeroes the unread tail of the
+preceding run.  Page size 4: run A = bytes `[0,6)`, run B = `[6,10)`; A has read its first 4 bytes,
+then B reads 4 bytes at offset 6 and punches from offset 4 — A's remaining bytes `[4,6)` now read
+as zeros; with the real code they are intact. -/
+theorem holePunch_c16_8_breaks :
+    readAt (readPunch (some 4) (readPunch (some 4) [1, 2, 3, 4, 5, 6, 7, 8, 9, 10] 0 4).2 6 4).2 (4, 2) = [0, 0] ∧
+    readAt (readPunch none (readPunch none [1, 2, 3, 4, 5, 6, 7, 8, 9, 10] 0 4).2 6 4).2 (4, 2) = [5, 6] := by
+  decide
 
 /-! ## The chain blocks of the output -/
 
